@@ -157,6 +157,13 @@ def hard_constraints(P, trace):
                 out.append(f"mmst_utility_exclusive: utility node(s) {sorted(shared)[:5]} visited by agents {i} and {j}")
     if any(types[u] == UTILITY for s in visited for u in s):
         P.hit("mmst_utility_exclusive")
+    a = trace[-1].action
+    if a is not None and len(trace) >= 2 and "action_mask" in trace[-2].O:
+        m0 = np.asarray(trace[-2].O["action_mask"]).astype(bool)
+        av = [int(x) for x in np.asarray(a).ravel()]
+        contested = [v for v in set(av) if sum(1 for i, x in enumerate(av) if x == v and i < m0.shape[0] and 0 <= x < m0.shape[1] and m0[i, x]) >= 3]
+        if contested:
+            P.hit("three_or_more_agents_same_legal_target")
     # the state's own record of the routes must be the route the agents really walked
     t = trace[-1].t
     cn = np.asarray(S["connected_nodes"])
@@ -389,6 +396,15 @@ def _pol_collide(ctx):
     n, A = len(st["types"]), len(st["pos"])
     mask = st["mask"]
     act = [None] * A
+    # a node that as many agents as possible may enter on this step (three-way and wider ties), utility nodes first
+    cnt = mask.sum(axis=0)
+    if cnt.max() >= 3:
+        best = np.flatnonzero(cnt == cnt.max())
+        util = [int(v) for v in best if st["types"][v] == UTILITY]
+        v = int(rng.choice(util)) if util else int(rng.choice(best))
+        for i in range(A):
+            if mask[i, v]:
+                act[i] = v
     for i in range(A):
         for j in range(i + 1, A):
             both = np.flatnonzero(mask[i] & mask[j])
@@ -413,6 +429,9 @@ def _pol_collide(ctx):
             nxt = _bfs_next(st["adj"], int(st["pos"][i]), {int(st["pos"][0])} | {int(v) for v in np.flatnonzero(st["adj"][int(st["pos"][0])])}, set(range(n)))
             act[i] = int(nxt) if nxt is not None and nxt in legal_nodes else int(rng.choice(np.flatnonzero(row)))
     return np.asarray(act, np.int32)
+
+
+POLICY_WEIGHT = {"collide": 5}  # ties between three or more agents are rare events: more episodes of the hostile workload
 
 
 def policies(P):
